@@ -678,8 +678,12 @@ htp_status_t htp_connp_RES_BODY_DETERMINE(htp_connp_t *connp) {
     // A request can indicate it waits for headers validation
     // before sending its body cf
     // https://developer.mozilla.org/en-US/docs/Web/HTTP/Headers/Expect
+    // This applies only while the inbound parser is still working on the request
+    // being answered: the body counters belong to the current inbound transaction,
+    // which with pipelining may be a later request.
     if (connp->out_tx->response_status_number >= 400 &&
         connp->out_tx->response_status_number <= 499 &&
+        connp->in_tx == connp->out_tx &&
         connp->in_content_length > 0 &&
         connp->in_body_data_left == connp->in_content_length) {
         htp_header_t *exp = htp_table_get_c(connp->out_tx->request_headers, "expect");
